@@ -611,4 +611,107 @@ theorem uniform_init (maxSize timeout : Int) (progs : List Prog) : Uniform (init
   subst this
   simp [Frame.outs] at ho
 
+/-! ### readable counters over the history and the return values -/
+
+/-- number of CompareAndSwap(closed,0,1) steps that succeeded. -/
+def nCasOk (tr : List Ev) : Nat := tr.countP (fun e => match e with | .cas _ true => true | _ => false)
+/-- number of CompareAndSwap steps that failed. -/
+def nCasFail (tr : List Ev) : Nat := tr.countP (fun e => match e with | .cas _ false => true | _ => false)
+/-- how many finished calls returned `r`, over all threads. -/
+def nRet (r : Ret) (ts : List Thread) : Nat := (ts.map (fun t => t.rets.count r)).sum
+
+theorem wCas_trace (tr : List Ev) : wCas.trace tr = nCasOk tr := by
+  induction tr with
+  | nil => rfl
+  | cons e tr ih =>
+    rw [Weight.trace_cons, ih]
+    simp only [nCasOk, List.countP_cons]
+    cases e with
+    | cas j b => cases b <;> simp [wCas, Nat.add_comm]
+    | _ => simp [wCas]
+
+theorem wErr_trace (tr : List Ev) : wErr.trace tr = nCasFail tr := by
+  induction tr with
+  | nil => rfl
+  | cons e tr ih =>
+    rw [Weight.trace_cons, ih]
+    simp only [nCasFail, List.countP_cons]
+    cases e with
+    | cas j b => cases b <;> simp [wErr, Nat.add_comm]
+    | _ => simp [wErr]
+
+theorem wCas_rets (rs : List Ret) : wCas.rets rs = rs.count .closeOk := by
+  induction rs with
+  | nil => rfl
+  | cons r rs ih =>
+    rw [Weight.rets_cons, ih, List.count_cons]
+    cases r <;> simp [wCas, Nat.add_comm]
+
+theorem wClr_rets (rs : List Ret) : wClr.rets rs = rs.count .closeOk := by
+  induction rs with
+  | nil => rfl
+  | cons r rs ih =>
+    rw [Weight.rets_cons, ih, List.count_cons]
+    cases r <;> simp [wClr, Nat.add_comm]
+
+theorem wErr_rets (rs : List Ret) : wErr.rets rs = rs.count .closeErr := by
+  induction rs with
+  | nil => rfl
+  | cons r rs ih =>
+    rw [Weight.rets_cons, ih, List.count_cons]
+    cases r <;> simp [wErr, Nat.add_comm]
+
+theorem rets_le_threads (w : Weight) (ts : List Thread) :
+    (ts.map (fun t => w.rets t.rets)).sum ≤ w.threads ts := by
+  induction ts with
+  | nil => simp [Weight.threads]
+  | cons t ts ih =>
+    simp only [Weight.threads, List.map_cons, List.sum_cons, Weight.thread] at ih ⊢
+    omega
+
+theorem mem_le_sum : ∀ (l : List Nat) (x : Nat), x ∈ l → x ≤ l.sum := by
+  intro l
+  induction l with
+  | nil => intro x h; simp at h
+  | cons a l ih =>
+    intro x h
+    simp only [List.sum_cons]
+    rcases List.mem_cons.mp h with rfl | h
+    · omega
+    · have := ih x h; omega
+
+theorem trace_pos {w : Weight} {tr : List Ev} (h : 0 < w.trace tr) : ∃ e ∈ tr, 0 < w.we e := by
+  induction tr with
+  | nil => simp at h
+  | cons e tr ih =>
+    simp only [Weight.trace_cons] at h
+    by_cases he : 0 < w.we e
+    · exact ⟨e, List.mem_cons_self .., he⟩
+    · obtain ⟨e', he', hw⟩ := ih (by omega)
+      exact ⟨e', List.mem_cons_of_mem _ he', hw⟩
+
+/-! ### the invariants hold in every reachable state -/
+
+theorem reach_conserved (maxSize timeout : Int) (progs : List Prog) (sched : List Tid) :
+    Conserved (run (init maxSize timeout progs) sched) :=
+  run_induct (fun _ _ _ h hc => conserved_step h hc) sched _ (conserved_init _ _ _)
+
+theorem reach_flushed (maxSize timeout : Int) (progs : List Prog) (sched : List Tid) :
+    Flushed (run (init maxSize timeout progs) sched) :=
+  (run_induct (P := fun s => Conserved s ∧ Flushed s)
+    (fun _ _ _ h hc => ⟨conserved_step h hc.1, flushed_step h hc.1 hc.2⟩) sched _
+    ⟨conserved_init _ _ _, flushed_init _ _ _⟩).2
+
+theorem reach_uniform (maxSize timeout : Int) (progs : List Prog) (sched : List Tid) :
+    Uniform (run (init maxSize timeout progs) sched) :=
+  run_induct (fun _ _ _ h hc => uniform_step h hc) sched _ (uniform_init _ _ _)
+
+theorem reach_closedOnce (maxSize timeout : Int) (progs : List Prog) (sched : List Tid) :
+    ClosedOnce (run (init maxSize timeout progs) sched) :=
+  run_induct (fun _ _ _ h hc => closedOnce_step h hc) sched _ (closedOnce_init _ _ _)
+
+theorem reach_balanced {w : Weight} (hw : w.Sound) (maxSize timeout : Int) (progs : List Prog)
+    (sched : List Tid) : w.Balanced (run (init maxSize timeout progs) sched) :=
+  run_induct (fun _ _ _ h hc => Weight.balanced_step hw h hc) sched _ (Weight.balanced_init hw _ _ _)
+
 end LA.ReasmConc
